@@ -151,6 +151,9 @@ func hostMatches(cfg LookupCfg, pattern, normHost string, tls bool) bool {
 	if cfg.GlobDisabled {
 		return pattern == normHost
 	}
+	if pattern == normHost {
+		return true // a host names itself even when its text, read as a pattern, does not ('[::1]' is a class)
+	}
 	m, _ := GlobMatch(pattern, normHost)
 	return m
 }
@@ -160,12 +163,12 @@ func hostMatches(cfg LookupCfg, pattern, normHost string, tls bool) bool {
 // '?', classes or alternatives are wildcards too; the statement does not rank them
 // against each other, so in their presence all wildcard candidates are tied
 // (classTie).
-func hostRank(cfg LookupCfg, pattern string, tls, classTie bool) int {
+func hostRank(cfg LookupCfg, pattern, normHost string, tls, classTie bool) int {
 	if pattern == "" {
 		return -1
 	}
 	pattern = NormHost(pattern, tls)
-	if cfg.GlobDisabled || !strings.ContainsAny(pattern, "*?[{") {
+	if cfg.GlobDisabled || pattern == normHost || !strings.ContainsAny(pattern, "*?[{") {
 		return 1 << 20
 	}
 	if classTie {
@@ -192,9 +195,9 @@ func Select(cfg LookupCfg, routes []LRoute, host string, tls bool, uri string) (
 	}
 	classTie := false
 	for _, c := range cands {
-		classTie = classTie || (!cfg.GlobDisabled && strings.ContainsAny(c.Host, "?[{"))
+		classTie = classTie || (!cfg.GlobDisabled && strings.ContainsAny(c.Host, "?[{") && NormHost(c.Host, tls) != nh)
 	}
-	hostRank := func(cfg LookupCfg, pattern string) int { return hostRank(cfg, pattern, tls, classTie) }
+	hostRank := func(cfg LookupCfg, pattern string) int { return hostRank(cfg, pattern, nh, tls, classTie) }
 	best := -2
 	for _, c := range cands {
 		if k := hostRank(cfg, c.Host); k > best {
